@@ -11,10 +11,43 @@
 //! Enumerated spaces (each complete):
 //!  1. member order: ALL pairs (client list, server list) of duplicate-free sequences over a k-symbol alphabet,
 //!     length ≤ k, for fields, methods, interfaces and all three at once — one class, one merge per pair;
+//!  1b. role words: EVERY word over {B(oth), C(lient only), S(erver only)} up to length n — the client list is the B and
+//!     C positions, the server list the B and S positions, i.e. every pair of compatible orders with up to n members in
+//!     total — and every such word with two shared positions transposed on the server (incompatible orders);
 //!  2. entries: EVERY subset of an entry menu (one-sided / identical / differing classes, equal / differing /
-//!     one-sided resources, directories, manifests, signature files per side, a bundled server library, …);
+//!     one-sided resources, directories, manifests, signature files per side, a bundled server library, …), of a menu of
+//!     large entries and of a menu of boundary entries (empty files, one-sided directory, look-alikes of signature files,
+//!     default-package classes), the jars listing their entries in the same and in opposite orders;
+//!  2b. entry names: the product directories × stems × endings around the three name rules (signature file, bundled
+//!     server library, manifest), each name on the client only, the server only, equal and differing on both sides;
+//!  2c. class sets: EVERY assignment of {absent, client only, server only, identical, differing} to n class names;
 //!  3. differing classes with content: every single difference aspect applied to rich base classes, in both
-//!     directions and combined with one-sided members on both sides.
+//!     directions and combined with one-sided members on both sides; the rich classes also on one side only.
+//!
+//! Clauses of the statement → where decided (oracle.rs) → over which spaces
+//!  E1 "every entry of either jar exactly once"            judge_run: entry:missing / entry:duplicated (names and central
+//!                                                         directory records) / entry:invented / entry:kind-changed;
+//!                                                         content of resources: resource:* — spaces 2, 2b, 2c, 3
+//!  E2 "minus signature files"                             presence(): META-INF/<file>.SF|.RSA must be absent, every look-alike
+//!                                                         (other directory, nested, other case → either way; .SF/.RSA outside
+//!                                                         META-INF/, .SF.txt, XSF, META-INFX/ → must stay) — spaces 2, 2b
+//!  E3 "minus bundled server libraries"                    presence(): server-only classes of well-known library packages must be
+//!                                                         absent; the same name on the client or on both sides, resources,
+//!                                                         default package, net/minecraft/ must stay — spaces 2, 2b, 2c
+//!  C1 "class on one side only is marked with that side"   judge_one_sided_class (mark, and nothing else changed) — spaces 2, 2b,
+//!                                                         2c, 3 (rich classes: annotations, module, record, …)
+//!  C2 "identical class passed through byte-identical"     judge_run identical-class:not-byte-identical — spaces 1 (diagonal), 2, 2b,
+//!                                                         2c; 1b holds masses of DIFFERENT classes of equal length (the test that
+//!                                                         selects this path must compare the bytes)
+//!  C3 "differing class: every field, method, interface    check_list :missing / :duplicated / :invented — spaces 1, 1b, 2, 2b, 2c, 3
+//!      of either side exactly once"
+//!  C4 "one-sided members and interfaces marked with       check_members / judge_marks / take_interface_marks: :one-sided-not-marked,
+//!      their side, shared members unmarked"                :marked-with-wrong-side, :marked-twice, :shared-marked, side-mark-for-absent-
+//!                                                         interface, class:shared-marked — spaces 1, 1b, 2, 2b, 2c, 3
+//!  C5 "relative order within each side preserved          check_list order:* (only when compatible(c, s)) — spaces 1 (k ≤ 4 / 5),
+//!      whenever the two orders are compatible"             1b (n ≤ 9 / 11 members in total), 3
+//!  Q  quantifier: disjoint / identical / overlapping class sets → 2c (floors per relation); interleavings, prefixes, suffixes,
+//!     permutations → 1, 1b (floors per relation and kind); resources equal or different → 2; META-INF content → 2, 2b
 
 #[path = "c13/oracle.rs"]
 mod oracle;
@@ -967,7 +1000,7 @@ fn main() {
 	}
 
 	// 1b. member orders by role words
-	let wb = WordBounds { single: ctx.tier.pick(8, 10), all: ctx.tier.pick(6, 8), swapped: ctx.tier.pick(7, 8) };
+	let wb = WordBounds { single: ctx.tier.pick(9, 11), all: ctx.tier.pick(7, 9), swapped: ctx.tier.pick(7, 9) };
 	let mut word_by_kind = Vec::new();
 	let mut words = Stats::new();
 	for (kind, st) in word_space(ctx, &wb) {
@@ -1006,7 +1039,7 @@ fn main() {
 	lap("boundary menu");
 	let names = names_space(ctx);
 	lap("names");
-	let n_class_names = ctx.tier.pick(5, 7);
+	let n_class_names = ctx.tier.pick(5, 6);
 	let classsets = classset_space(ctx, n_class_names);
 	lap("class sets");
 	let (warnings, other_stderr) = if captured { release_stderr() } else { (0, Vec::new()) };
@@ -1135,7 +1168,7 @@ fn main() {
 			"boundary_menu": edge_menu.iter().map(|m| format!("{}: {}", m.what, m.name)).collect::<Vec<_>>(),
 			"boundary_menu_subsets": format!("all 2^{} subsets, entries as listed and with the client's entries reversed; both jar implementations", edge_menu.len()),
 			"class_sets": format!("every assignment of {{absent, client only, server only, identical, differing}} to {n_class_names} class names ({} pairs of jars), the server listing its entries in reverse; both jar implementations", 5u64.pow(n_class_names as u32)),
-			"jar_implementations": "member-order space: UnnamedMemJar (zip archive in memory); content space and base entry menu: UnnamedMemJar and ParsedJar inputs, each judged separately",
+			"jar_implementations": "member-order and role-word spaces: UnnamedMemJar (zip archive in memory); content space, entry menus (base, large, boundary), entry names and class sets: UnnamedMemJar and ParsedJar inputs, each judged separately",
 		},
 		"side_marks": {
 			"class_field_method": format!("annotation {} with value = enum {} CLIENT|SERVER", oracle::ENVIRONMENT, oracle::ENV_TYPE),
@@ -1148,7 +1181,7 @@ fn main() {
 	ctx.finish(coverage, &[
 		"cfmodel's strict parser is the independent reading of class files; every assembled input class is checked with parse(assemble(m)) == m first",
 		"the merged jar is observed after ParsedJar::to_mem (duke's writer) and the zip crate; facts duke's reader/writer lose on their own are cancelled by comparing the rest of a class with write_class(read_class(side))",
-		"where the statement is silent (manifest content, which side of a differing resource, order of incompatible member lists, .DSA/.EC files, classes of unclear origin, classes differing in more than member lists being refused) every behaviour but a panic or a fact from neither side is accepted",
+		"where the statement is silent (manifest content, which side of a differing resource, order of incompatible member lists, .DSA/.EC/SIG- files, .SF/.RSA names in another case or in a sub-directory of META-INF/, server-only classes below META-INF/ or of unclear origin, classes differing in more than member lists being refused) every behaviour but a panic or a fact from neither side is accepted",
 		"zip entry names are compared as written; jar entry order is not judged",
 	]);
 }
